@@ -59,7 +59,7 @@ class Contract:
                  raises=None, may_raise=(), defines=None, loops=None, ghosts=(), locals=None,
                  ghost_init=None, trusted=False, inline=False, note="", props=(),
                  ghost_params=None, result_name="result", lemmas=(), pure=True,
-                 must_raise=None, logs=None, map_keys=None, raise_allowed=None, ghost_results=None, call_site=True, silent=None, mode=None):
+                 must_raise=None, logs=None, map_keys=None, raise_allowed=None, ghost_results=None, call_site=True, silent=None, mode=None, callee_modes=None):
         self.key = key
         self.inst = inst
         self.params = OrderedDict(params)
@@ -96,6 +96,7 @@ class Contract:
         # mode 'safety': weak-precondition instance used for the escape analysis (C18); units verified in
         # safety mode resolve their callees to safety instances where one exists
         self.mode = mode
+        self.callee_modes = dict(callee_modes or {})
         self.native_oracle = None     # see contracts/oracles.py (bounded stand-in only)
         self.oracle_order = None
 
